@@ -869,6 +869,12 @@ def directed_histories():
                                           ['rmfile', ['d', 'a.mp3']], ['rmfile', ['d', 'sub', 'b.mp3']], ['scan', ['d']], Q('mp3'), Q('a'), ['index', True]]})
     out.append({'files': files, 'steps': [['add', ['d'], 'everyone', []], ['scan', ['d']], ['rmfile', ['d', 'a.mp3']], ['add', ['d', 'sub'], 'friends', []],
                                           ['scan', ['d']], ['scan', ['d', 'sub']], Q('mp3', 'u1'), ['index', True]]})
+    # a rescan after on-disk changes that keep the number of files equal: touched (new mtime), renamed, one deleted + one created
+    files = [[['d', 'alpha.mp3'], 5], [['d', 'beta.mp3'], 6]]
+    for change in ([['mkfile', ['d', 'alpha.mp3'], 50]], [['rmfile', ['d', 'alpha.mp3']], ['mkfile', ['d', 'gamma.mp3'], 5]],
+                   [['mkfile', ['d', 'alpha.mp3'], 50], ['mkfile', ['d', 'beta.mp3'], 51]]):
+        out.append({'files': files, 'steps': [['add', ['d'], 'everyone', []], ['scan', ['d']], Q('alpha'), *change, ['scan', ['d']],
+                                              Q('alpha'), Q('gamma'), Q('mp3'), Q('*a'), ['index', True]]})
     # a nested share, and elsewhere in the scanned tree an ordinary directory with the same base name
     files = [[['m', 'a1', 'live', 'x.mp3'], 5], [['m', 'a2', 'live', 'y.mp3'], 6], [['m', 'a2', 'live', 'deep', 'z.mp3'], 7], [['m', 'live', 'w.mp3'], 8]]
     out.append({'files': files, 'steps': [['add', ['m'], 'everyone', []], ['add', ['m', 'a1', 'live'], 'friends', []], ['scan', ['m']], ['scan', ['m', 'a1', 'live']],
